@@ -13,12 +13,17 @@ SIDES = ['use-base', 'use-local', 'use-remote']
 
 
 def side_for(path, m, i, o):
+    """side selected for a conflict at `path`: the strategy registered for the longest prefix of the starred
+    path (nbdime resolves level-wise from the leaf upwards; each use-x strategy settles everything below it)"""
     star = '/' + '/'.join('*' if isinstance(k, int) else k for k in path)
-    if star.startswith('/cells/*/source') or star.startswith('/cells/*/attachments'):
-        return i
-    if star.startswith('/cells/*/outputs'):
-        return o
-    return m
+    table = [('/cells/*/outputs/*/metadata', m), ('/cells/*/metadata', m), ('/metadata', m),
+             ('/cells/*/source', i), ('/cells/*/attachments', i), ('/cells/*/outputs', o)]
+    best = None
+    for prefix, side in table:
+        if star == prefix or star.startswith(prefix + '/'):
+            if best is None or len(prefix) > len(best[0]):
+                best = (prefix, side)
+    return best[1] if best else m
 
 
 def reference(b, l, r, m, i, o, transients):
